@@ -1,6 +1,7 @@
 package pop3
 
 import (
+	"bytes"
 	"github.com/inbucket/inbucket/v3/pkg/config"
 	vrf "github.com/inbucket/inbucket/v3/pkg/zzvrf"
 )
@@ -8,6 +9,9 @@ import (
 // vrfLines is the reference line split: lines end in '\n', one '\r' before it is dropped, a final
 // unterminated line counts, an empty rest does not.
 func vrfLines(src []byte) []string {
+	if len(src) > 4096 {
+		return vrfLinesLong(src)
+	}
 	var out []string
 	start := 0
 	for i := 0; i < len(src); i++ {
@@ -21,6 +25,30 @@ func vrfLines(src []byte) []string {
 			out = append(out, string(src[start:end]))
 			start = i + 1
 		}
+	}
+	if start < len(src) {
+		out = append(out, string(src[start:]))
+	}
+	return out
+}
+
+// vrfLinesLong is vrfLines with a search per line instead of a loop per byte (long sources).
+func vrfLinesLong(src []byte) []string {
+	var out []string
+	start := 0
+	for start < len(src) {
+		i := bytes.IndexByte(src[start:], '\n')
+		if i < 0 {
+			break
+		}
+		end := start + i
+		if end > start {
+			if src[end-1] == '\r' {
+				end--
+			}
+		}
+		out = append(out, string(src[start:end]))
+		start += i + 1
 	}
 	if start < len(src) {
 		out = append(out, string(src[start:]))
@@ -94,5 +122,62 @@ func VerifC02Retr(n int, top int) {
 				vrf.Assert("leading-dot-was-stuffed", len(got[i+1]) == len(w)+1)
 			}
 		}
+	}
+}
+
+// VerifC02RetrLong: RETR / TOP of a message with one very long line (L bytes without a line
+// break, around and beyond bufio's 64 KiB token size) between ordinary lines: every line is
+// transmitted, the long one unbroken. This scenario is concrete (an array of 64 Ki symbolic-or-not
+// bytes with even one symbolic byte in it is beyond what the engine handles): the engine executes
+// the real code over it and the solver has nothing to choose - a directed run, listed as such.
+func VerifC02RetrLong(L int, top int) {
+	head := "S: x\r\n\r\n"
+	long := bytes.Repeat([]byte{'a'}, L)
+	src := append(append([]byte(head), long...), []byte("\r\n.end\r\n")...)
+	keep := append([]byte(nil), src...)
+	st := &vrfStore{boxes: map[string][]*vrfMsg{}}
+	st.boxes["box"] = []*vrfMsg{{mailbox: "box", id: "ida", size: int64(len(src)), src: src}}
+	srv, err := NewServer(config.POP3{Domain: "inbucket.local", Timeout: 5}, st)
+	if err != nil {
+		return
+	}
+	sc := vrf.NewScriptConn()
+	var got []string
+	step := 0
+	sc.Next = func() vrf.Step {
+		if step == 3 {
+			got = sc.Replies
+		}
+		sc.Replies = nil
+		step++
+		switch step {
+		case 1:
+			return vrf.Step{Kind: vrf.StepLine, Text: "USER box"}
+		case 2:
+			return vrf.Step{Kind: vrf.StepLine, Text: "PASS x"}
+		case 3:
+			if top != 0 {
+				return vrf.Step{Kind: vrf.StepLine, Text: "TOP 1 9"}
+			}
+			return vrf.Step{Kind: vrf.StepLine, Text: "RETR 1"}
+		}
+		return vrf.Step{Kind: vrf.StepEOF}
+	}
+	srv.wg.Add(1)
+	srv.startSession(1, sc)
+	vrf.Cover("retrieved-long")
+	want := vrfLines(keep)
+	vrf.Assert("long-line-reply-count", len(got) == len(want)+2)
+	if len(got) != len(want)+2 {
+		return
+	}
+	vrf.Assert("status-ok", vrfOK(got[0]))
+	vrf.Assert("terminator", got[len(got)-1] == ".")
+	for i, w := range want {
+		line := got[i+1]
+		if len(line) > 0 && line[0] == '.' {
+			line = line[1:]
+		}
+		vrf.Assert("long-line-content", line == w)
 	}
 }
